@@ -47,6 +47,7 @@ func (h *Handler) handleDecline(p packet.DHCP4, options packet.DHCP4Options) (d 
 	lease.State = StateFree
 	lease.Addr.IP = netip.Addr{}
 	lease.IPOffer = netip.Addr{}
+	h.saveConfig(h.filename) // the declined binding must not come back after a restart
 	return nil
 }
 
